@@ -40,6 +40,26 @@ CLAIMED = {
         note=TB + " Distinct variable names; permutation variables alone in a task; no NaN inputs.",
         technique="Coq proof on hand model + vm_compute correspondence against models.Task; per-variable rules regenerated (T-core)",
         design="§7 C14"),
+    "C04": dict(
+        text=("Machine-checked proof that a run of the optimize() statement schema REGENERATED from abstract.py (pv/tschema.py) with the "
+              "REGENERATED __error_check__/__should_stop__ (T-core, bridged) stops at the first cycle K at which the declarative criterion "
+              "holds (budget, rate <= fitness_error, last `patience` changes all small decreases), K <= max_cycles (this is the termination "
+              "proof: fuel = max_cycles never runs out), with K+1 generations, K rates and rate k = |1 - mean fitness of generation k| — "
+              "for every optimizer (arbitrary hidden state, hooks and step function), every instance history, every float carrier, every "
+              "rate history and configuration. Tie: regeneration + bridge lemmas; scripted histories through the real optimize() compared "
+              "bit-for-bit (PrimFloat) with the model in Coq; observational pass over real optimizers."),
+        note=TB + " np.average is an oracle value per generation; every generation reached is non-empty (else ValueError: C06/C10).",
+        technique="Coq proof (interpreter of the regenerated schema, induction on fuel) + bridge lemmas + PrimFloat vm_compute correspondence",
+        design="§7 C04"),
+    "C03": dict(
+        text=("Machine-checked proof, for a run of the regenerated optimize() schema and every optimizer/history/configuration: best_solution "
+              "is the sign-restored copy of a member of the last recorded generation and no member of it is strictly better in the task's "
+              "direction — for every final population (any size >= 1, order, ties; hence any pool completion order), both directions "
+              "(regenerated sign restoration of Population/OptimizationResult, xneg reverses the order). Tie: schema regeneration + bridges; "
+              "scripted histories with ties/plateaus through the real optimize(); all 84 real optimizers in both directions."),
+        note=TB + " Costs of the final generation are not NaN.",
+        technique="Coq proof over the regenerated schema + sort/selection theorems; scripted vm_compute correspondence; search over real optimizers",
+        design="§7 C03"),
 }
 
 PENDING_REASON = "check not built yet in this round (work in progress, see DESIGN.md §11 build order); not claimed until its check exists"
